@@ -12,6 +12,8 @@ def INCLUDE(name):
 
 def replay(ob):
     n = ob["name"]
+    if "ScatterAllDynamic" in n:
+        return HEAD + "main(['scatter_dynamic_shape_attrs'])\n"
     if "expand_removable.strategy" in n and "same_output_dims" in n:
         return HEAD + "main(['expand_unknown_dims', 'expand_rank'])\n"
     if "Flatten2Reshape" in n:
